@@ -80,6 +80,12 @@ func c11List(tier string) []c11Case {
 			out = append(out, c11Case{Mode: "undecodable-response-then-more", Kind: []string{"bidi", "server"}[i%2], M: m, GMP: []int{1, 4, 16}[(i+1)%3]})
 		}
 	}
+	for rp := 0; rp < reps; rp++ {
+		for m := 2; m <= 5; m++ {
+			i++
+			out = append(out, c11Case{Mode: "open-reported-failed-but-delivered", Kind: []string{"bidi", "client", "server"}[i%3], M: m, Cap: []int{0, 4}[i%2], GMP: []int{1, 4, 16}[i%3]})
+		}
+	}
 	for k := 0; k < 6*reps; k++ {
 		out = append(out, c11Case{Mode: "websocket-cancel-mid-write", Kind: "ws"})
 	}
@@ -172,6 +178,79 @@ func newFloodPeer(ctx context.Context, l *wire.Link) *floodPeer {
 		}
 	}()
 	return fp
+}
+
+// c11OpenFailsDelivered: the transport reports the write of a stream's opening envelope as failed
+// although the envelope reached the server (a context ending while the frame completes). The
+// caller has given the call up; the server's handler nevertheless runs and sends m messages to an
+// id nobody is waiting for. The connection must go on serving.
+func c11OpenFailsDelivered(tier string, seed int64, idx int, c c11Case, res *core.Result) {
+	setGMP(c.GMP)
+	h := bed.NewHooks()
+	h.Install()
+	b := bed.New(bed.Opts{Cap: c.Cap, Serialise: idx%2 == 0})
+	cc := b.Conns[0]
+	tag := fmt.Sprintf("ofd%d", idx)
+	b.Impl.SetStream(tag, func(t, k string, ss grpc.ServerStream) error {
+		for i := 0; i < c.M; i++ {
+			if ss.SendMsg(&svc.BV{Value: []byte{byte(i)}}) != nil {
+				break
+			}
+		}
+		<-ss.Context().Done()
+		return nil
+	})
+	end := b.Links[0].A
+	end.DeliverButFailWritesAt(end.Writes())
+	opened := make(chan error, 1)
+	go func() {
+		_, err := svc.Open(context.Background(), cc, c.Kind, tag, []byte("q"))
+		opened <- err
+	}()
+	var oerr error
+	got := false
+	st, snap := settle(tier, func() bool {
+		select {
+		case oerr = <-opened:
+			got = true
+		default:
+		}
+		return got
+	})
+	if st == "stuck" {
+		res.ViolateD("abandoning-call-never-returns/"+c.Mode, map[string]any{"goat_goroutines": goatParked(snap)}, "NewStream whose opening write was reported failed never returns")
+	} else if st == "ok" && oerr == nil {
+		res.Stat("open_succeeded_despite_write_error", 1)
+	}
+	quiet(tier) // the handler's messages have come back for an id nobody owns
+	pdone := make(chan error, 1)
+	go func() {
+		g, err := svc.Invoke(context.Background(), cc, "probe", []byte("probe"))
+		if err == nil && string(g) != "probe" {
+			err = fmt.Errorf("wrong reply %q", g)
+		}
+		pdone <- err
+	}()
+	var perr error
+	pgot := false
+	stp, snapp := settle(tier, func() bool {
+		select {
+		case perr = <-pdone:
+			pgot = true
+		default:
+		}
+		return pgot
+	})
+	if stp == "stuck" {
+		res.ViolateD("connection-wedged-after-abandoned-stream/"+c.Mode, map[string]any{"goat_goroutines": goatParked(snapp)}, "after a stream open that was reported failed but delivered (handler sent %d messages) a probe call never completes: final state reached", c.M)
+	} else if stp == "ok" && perr != nil {
+		res.Violate("rpc-fails-after-abandoned-stream", "probe failed after %s: %v", c.Mode, perr)
+	} else if stp == "ok" {
+		res.Stat("probes_completed", 1)
+		res.Stat("opens_failed_but_delivered", 1)
+	}
+	res.Stat("abandonments", 1)
+	finish(tier, b, h, res)
 }
 
 // awaitTeardownOrFinal waits until the cancelled call's teardown is writing its reset (a write
@@ -279,6 +358,11 @@ func c11Scripted(tier string, seed int64, idx int, c c11Case, res *core.Result) 
 func c11Run(tier string, seed int64, idx int) *core.Result {
 	list := c11List(tier)
 	c := list[idx]
+	if c.Mode == "open-reported-failed-but-delivered" {
+		res := &core.Result{Verdict: core.Held, Sample: c, Sig: fmt.Sprintf("%+v/%d", c, idx), NonTrivial: true}
+		c11OpenFailsDelivered(tier, seed, idx, c, res)
+		return res
+	}
 	if c.Mode == "websocket-cancel-mid-write" {
 		res := &core.Result{Verdict: core.Held, Sample: c, Sig: fmt.Sprintf("%+v/%d", c, idx), NonTrivial: true}
 		c11WSCancel(tier, seed, idx, res)
@@ -530,11 +614,11 @@ func init() {
 	core.Register(&core.Prop{
 		ID:    "C11",
 		Level: "exploration",
-		Rule:  "cases = {handler returns after k of n client messages, all 0<=k<n<=8 (server-stream n<=3)} + {caller cancels with m in 0..8 responses unread} x stream kind x other RPCs in flight {quick 0,2; thorough 0..4} x hook plan {none, rendezvous parking the server's stream unregistration until nothing else moves; thorough adds jitter and parking the client stream's teardown}; plus scripted-server families (the caller is cancelled while its send is blocked by transport back-pressure and m in 3..6 responses are unread; the first response cannot be decoded, the caller stops receiving without cancelling, and m-1 more responses follow); and a family over the shipped websocket transport on loopback sockets in which a caller gives up (cancel / deadline / stream send) while its 64 KiB frame is half-way onto the socket, with 2 calls in flight (wall-clock bounds there are inconclusive, only failed calls are violations); every case ends with a no-deadline probe and a manual-deadline probe. All cases are distinct parameter tuples and all are non-trivial (each abandons a stream).",
+		Rule:  "cases = {handler returns after k of n client messages, all 0<=k<n<=8 (server-stream n<=3)} + {caller cancels with m in 0..8 responses unread} x stream kind x other RPCs in flight {quick 0,2; thorough 0..4} x hook plan {none, rendezvous parking the server's stream unregistration until nothing else moves; thorough adds jitter and parking the client stream's teardown}; plus scripted-server families (the caller is cancelled while its send is blocked by transport back-pressure and m in 3..6 responses are unread; the first response cannot be decoded, the caller stops receiving without cancelling, and m-1 more responses follow); a family in which the transport reports the write of a stream's opening envelope as failed although it was delivered, so that the handler sends 2..5 messages to an id the caller has given up; and a family over the shipped websocket transport on loopback sockets in which a caller gives up (cancel / deadline / stream send) while its 64 KiB frame is half-way onto the socket, with 2 calls in flight (wall-clock bounds there are inconclusive, only failed calls are violations); every case ends with a no-deadline probe and a manual-deadline probe. All cases are distinct parameter tuples and all are non-trivial (each abandons a stream).",
 		Plan:  func(tier string, seed int64) int { return len(c11List(tier)) },
 		Run:   c11Run,
 		Assumptions: []string{"final state = every goroutine durably blocked in a consistent stop-the-world snapshot (channel-only scenario, manual deadlines, no real timers)"},
-		RequiredStats: func(string) []string { return []string{"probes_completed", "rendezvous_fired", "hook:srv.beforeStream", "scripted_abandonments", "ws_cancel_mid_write_cases"} },
+		RequiredStats: func(string) []string { return []string{"probes_completed", "rendezvous_fired", "hook:srv.beforeStream", "scripted_abandonments", "ws_cancel_mid_write_cases", "opens_failed_but_delivered"} },
 		Exhaustive: func(string) bool { return false },
 	})
 }
